@@ -11,7 +11,7 @@
 //	sv SEED K MSG      RFC 8032 key from SEED; bundled Sign (nonce K) and std Sign, all four verifications
 //	svx X K MSG        arbitrary private scalar bytes X (as UnmarshalBinary stores them)
 //	mut SEED K MSG BASE WHAT   BASE = b (bundled signature) | s (std signature); WHAT =
-//	        sig:<bit> | msg:<bit> | app:<byte> | key:<bit> | splus | trunc:<n> | ext:<hex> | none
+//	        sig:<bit> | msg:<bit> | app:<byte> | key:<bit> | splus | sneg (S -> l-S) | rneg (R -> -R) | rsneg | trunc:<n> | ext:<hex> | none
 //
 // MSG is x<hex> (literal) or s<n>,<a>,<b> (byte i = a*i+b).
 package c20
@@ -485,6 +485,16 @@ func exec(line string) (res h.Result) {
 				panic("S + l does not fit")
 			}
 			copy(sig[32:], le32(s))
+		case "sneg":
+			// S -> l - S: S'*B = -(R + h*A), whose encoding differs from that of R + h*A in bit 255 alone
+			s := new(big.Int).Sub(ell, new(big.Int).Mod(le(sig[32:]), ell))
+			copy(sig[32:], le32(s.Mod(s, ell)))
+		case "rneg":
+			sig[31] ^= 0x80 // R -> -R
+		case "rsneg":
+			sig[31] ^= 0x80
+			s := new(big.Int).Sub(ell, new(big.Int).Mod(le(sig[32:]), ell))
+			copy(sig[32:], le32(s.Mod(s, ell)))
 		case "trunc":
 			sig = sig[:h.Atoi(arg)]
 		case "ext":
@@ -761,6 +771,9 @@ func genMut(rng *h.Rng, thorough bool, emit func(string)) {
 			p := fmt.Sprintf("mut %s %s %s %s ", seed, k, msg, base)
 			emit(p + "none")
 			emit(p + "splus")
+			emit(p + "sneg")
+			emit(p + "rneg")
+			emit(p + "rsneg")
 			for _, n := range []int{0, 1, 32, 63} {
 				emit(p + fmt.Sprintf("trunc:%d", n))
 			}
